@@ -282,6 +282,8 @@ func buildSignVerbatimRole(data *framework.FieldData, role *roleEntry) *roleEntr
 		AllowedUserIDs:            []string{"*"},
 		CNValidations:             []string{"disabled"},
 		GenerateLease:             new(bool),
+		// The request's not_before is taken verbatim, like everything else.
+		NotBeforeBound: PermitNotBeforeBound.String(),
 		// If adding new fields to be read, update the field list within addSignVerbatimRoleFields
 		KeyUsage:                      data.Get("key_usage").([]string),
 		ExtKeyUsage:                   data.Get("ext_key_usage").([]string),
